@@ -20,6 +20,7 @@ REGISTRY = [
     ("gen-nasacc", "NasAccessors.v", (C.REPO,)),
     ("gen-builders", "Builders.v", (C.REPO,)),
     ("gen-snow3g", "Snow3gTables.v", (C.REPO,)),
+    ("gen-minfn", "MinFn.v", (C.REPO,)),
 ]   # (sub, outfile, args)
 
 
